@@ -45,6 +45,20 @@ def _scrub(v, depth=0):
 _REUSED = {}
 
 
+def _call_env(f, args):
+    """call f(*args) under process-wide settings a caller may legitimately have changed: a low-precision, truncating
+    decimal context (an application that formats money), a different float repr/locale cannot be set portably here.
+    Library code whose answer must depend only on its arguments gives the same answer."""
+    import decimal
+    ctx = decimal.getcontext()
+    saved = (ctx.prec, ctx.rounding)
+    ctx.prec, ctx.rounding = 6, decimal.ROUND_DOWN
+    try:
+        return f(*args)
+    finally:
+        ctx.prec, ctx.rounding = saved
+
+
 def _call_deep(f, args, depth=800, limit=1000):
     """call f(*args) from `depth` frames below the worker's loop with the interpreter's DEFAULT recursion limit (a
     caller that is itself recursive - a tree walk over accounts or blocks): code that needs a stack proportional to
@@ -94,6 +108,10 @@ def main():
                 try:
                     orig_args = None
                     deep = False
+                    env = False
+                    if op.endswith("@env"):            # perturbed process environment (see _call_env)
+                        op = op[:-len("@env")]
+                        env = True
                     if op.endswith("@deep"):           # the caller is already ~800 frames deep (default limit 1000)
                         op = op[:-len("@deep")]
                         deep = True
@@ -126,6 +144,8 @@ def main():
                         args = new
                     if deep:
                         v = _call_deep(prop.IMPL[op], args)
+                    elif env:
+                        v = _call_env(prop.IMPL[op], args)
                     else:
                         v = prop.IMPL[op](*args)
                     signal.setitimer(signal.ITIMER_REAL, 0)
